@@ -15,7 +15,16 @@ Traces == JsonDeserialize(IOEnv.TRACE_FILE)
 Has(r, f) == f \in DOMAIN r
 Inserting == {"wrap_offset", "wrap_pattern", "mark_occurrence", "mark_position"}
 
-Verdict(ev) ==
+(* calls harvested from the repository's own tests: the arguments are not translated, only the class of the call  *)
+(* is known - the clauses of C09 / C05 that are stated on the observation alone still apply                        *)
+Harvested == {"harvest_insert", "harvest_strip", "harvest_append"}
+HarvestVerdict(ev) ==
+    IF Has(ev, "exc") THEN (IF Flat0(ev.post) # Flat0(ev.pre) THEN {"partial-modification"} ELSE {})
+    ELSE (IF ev.op.op = "harvest_insert" /\ Vis(ev.post) # Vis(ev.pre) THEN {"text-altered"} ELSE {})
+    \cup (IF ev.op.op = "harvest_strip" /\ Vis(ev.post) # Vis(ev.pre) THEN {"removal-lost-text"} ELSE {})
+    \cup (IF ev.op.op = "harvest_append" /\ Vis(ev.post) # Vis(ev.pre) \o ev.op.text THEN {"appended-text-differs"} ELSE {})
+
+ModelVerdict(ev) ==
     LET want == Flat(ApplyOp(ev.pre, ev.op))
         (* a paragraph without any text node: whether position 0 exists depends on an unobservable detail *)
         (* (text "" or no text at all), so both "not found" and "inserted at the very start" are accepted *)
@@ -26,6 +35,8 @@ Verdict(ev) ==
    \cup (IF ev.op.op = "strip_tags" /\ Vis(ev.post) # Vis(ev.pre) THEN {"removal-lost-text"} ELSE {})
    \cup (IF Has(ev, "exc") /\ Flat(ev.post) # Flat(ev.pre) THEN {"partial-modification"} ELSE {})
    \cup (IF Has(ev, "orig") /\ Flat(ev.orig) # Flat(ev.pre) THEN {"copy-operation-changed-original"} ELSE {})
+
+Verdict(ev) == IF ev.op.op \in Harvested THEN HarvestVerdict(ev) ELSE ModelVerdict(ev)
 
 VARIABLES tid, l, bad
 vars == <<tid, l, bad>>
